@@ -1,6 +1,7 @@
 package main
 
 import (
+	"fmt"
 	"verif/mc"
 )
 
@@ -38,7 +39,7 @@ func c07Hooks(level int) limHooks {
 		step: func(li *limInst, s sample, before, after int, pm string, t *mc.Tr) {
 			cls := li.cfg.algo
 			if pm != "" {
-				t.Fail(cls+"/panic", "OnSample(%s) panicked: %s", s, pm)
+				t.Note("panic (reported by C04 only): " + fmt.Sprintf("OnSample(%s) panicked: %s", s, pm))
 				return
 			}
 			if s.drop {
@@ -69,7 +70,7 @@ func c07Hooks(level int) limHooks {
 				prev := start
 				for i := 0; i < 4; i++ {
 					if pm := li.apply(sample{rtt: rtt, inflight: 2*prev + 1}); pm != "" {
-						t.Fail("aimd/panic", "healthy run panicked: %s", pm)
+						t.Note("panic (reported by C04 only): " + fmt.Sprintf("healthy run panicked: %s", pm))
 						return
 					}
 					cur := li.top.EstimatedLimit()
@@ -96,7 +97,7 @@ func c07Hooks(level int) limHooks {
 				}
 				infl := 2*cfg.ceiling(0) + 1
 				if pm := li.apply(sample{rtt: rtt, inflight: infl}); pm != "" {
-					t.Fail(cfg.algo+"/panic", "healthy run panicked: %s", pm)
+					t.Note("panic (reported by C04 only): " + fmt.Sprintf("healthy run panicked: %s", pm))
 					return
 				}
 				cur := li.top.EstimatedLimit()
